@@ -24,21 +24,22 @@ TECHNIQUE = ("Lean 4 proof about a hand transcription of XPath::stepPattern/doSt
              "pattern compiler's op-code assignment, against the XSLT 5.2 definition (exists ancestor-or-self selecting); "
              "correspondence run against the real compiler, XPath::getMatchScore and XPath::execute on generated "
              "patterns x all nodes of generated documents")
-LEVEL_TEXT = ("Machine-checked, for every well-formed document and node, no bound on steps/predicates/size/depth: "
-              "(i) match <=> exists ancestor-or-self selecting, for every union of multi-step patterns that are relative "
-              "or start with '//', have child-axis steps with tests other than node() (any lists of [k] [last()] "
-              "[position()=k] [position()!=last()] [@x] [x] [not(@x)]) and every '//' before every '/' "
-              "(match_iff_select_partial: exactly where the no-backtracking any-ancestor loop is harmless); (ii) the "
-              "same for one-step patterns with any test incl. node() away from the root "
-              "(match_iff_select_onestep_partial); (iii) one matcher step = the forward step from the parent, "
-              "handleFoundIndex is exact, the forward step() equals the XPath step, unions match iff an alternative does "
-              "(step_matches_iff_selected, handleFoundIndex_spec, fwdStep_eq_spec, union_first_match). The full "
-              "statement is false of the unchanged code: five *_counterexample theorems (no backtracking after '//', "
-              "'/a//b' climbing to the root, node() on the document node, positional predicates and node-type tests on "
-              "attribute steps), each replayed on the real library. The transcription (recursion, any-ancestor loop, "
-              "scoreHolder, both early returns, op-code assignment) is tied to the working tree by comparing op codes, "
-              "XPath::getMatchScore of every node and the expression engine's answer for every node with the compiled "
-              "Lean model.")
+LEVEL_TEXT = ("Machine-checked, for every well-formed document and node, no bound on steps/predicates/size/depth, and for every "
+              "variant of the code (as found / with the proposed repairs; the variant of the tree is probed on the real "
+              "library): (i) match <=> exists ancestor-or-self selecting, for every union of multi-step patterns that are "
+              "relative or '//'-leading with every '//' before every '/', or absolute with '/' only, with child-axis steps "
+              "(any lists of [k] [last()] [position()=k] [position()!=last()] [@x] [x] [not(@x)]) and an optional final "
+              "attribute step (match_iff_select_partial: exactly where the no-backtracking any-ancestor loop is harmless); "
+              "(ii) with the backtracking repair the same for any order of separators and any lead "
+              "(match_iff_select_backtracking_partial); (iii) as found, a reported match is always a selected node on "
+              "relative/'//'-leading patterns (match_implies_select_partial); (iv) one matcher step = the forward step "
+              "from the parent, handleFoundIndex is exact, the forward step() equals the XPath step, unions match iff an "
+              "alternative does. The full statement is false of the code as found: five *_counterexample theorems, each "
+              "replayed on the real library; repaired_witnesses / backtracking_witnesses show them gone under the proposed "
+              "repairs. The transcription (recursion, any-ancestor loop, scoreHolder, early returns, op-code assignment) "
+              "is tied to the working tree by comparing op codes, XPath::getMatchScore of every node and the expression "
+              "engine's answer for every node with the compiled Lean model; template match, xsl:key match, xsl:number "
+              "count and key()-leading patterns are observed through stylesheets.")
 LEVEL_NOTE = ("Trusted: Lean kernel; axioms propext/Classical.choice/Quot.sound only; the hand transcription (checked by "
               "the correspondence run, bounded by generator coverage); harness/c09_patterns.cpp and checks/c09.py. "
               "Modelled, not verified: tokenizer/parser of the pattern text (only the op-code assignment is modelled and "
@@ -59,6 +60,11 @@ THEOREMS = [
     "XalanModel.Props.C09.node_test_root_counterexample",
     "XalanModel.Props.C09.attr_positional_counterexample",
     "XalanModel.Props.C09.attr_kindtest_counterexample",
+    "XalanModel.Props.C09.repaired_witnesses",
+    "XalanModel.Props.C09.match_iff_select_backtracking_partial",
+    "XalanModel.Props.C09.backtracking_witnesses",
+    "XalanModel.Props.C09.backtracking_class_total",
+    "XalanModel.Props.C09.match_iff_select_repaired",
 ]
 
 
@@ -124,9 +130,32 @@ def violations(rep):
     return out
 
 
+# (findAttrFix, attrGuard, rootGuard, backtrack): which proposed repairs the tree under test contains (see probe_variant)
+VARIANT = (0, 0, 0, 0)
+
+
+def probe_variant(harness, work):
+    """Ask the real library three questions that separate the code as found from the proposed repairs
+    (proposed/C09-attribute-step.diff, proposed/C09-node-test-root.diff); the answers select the variant of the Lean
+    model (Matcher.lean `Variant`).  Everything else about the variant is then *checked* by the correspondence."""
+    doc = dict(kind="r", name="", attrs=[], kids=[dict(kind="e", name="a", attrs=[dict(kind="a", name="x", attrs=[], kids=[])],
+                                                  kids=[dict(kind="t", name="", attrs=[], kids=[])])])
+    pats = [_rel(("c", _s(N("x"), [("i", 1)], attr=True))),      # @x[1]   matches the attribute  <=> findAttrFix
+            _rel(("c", _s(("node", None), attr=True))),          # @node() refuses the element   <=> attrGuard
+            _rel(("c", _s(("node", None))))]                     # node()  refuses the root      <=> rootGuard
+    chain = g.chain_doc(["z", "a", "q", "a", "b"])
+    zab = _rel(("c", _s(N("z"))), ("c", _s(N("a"))), ("d", _s(N("b"))))   # z/a//b matches the b  <=> backtrack
+    lines, owner, out, rc, err = run_impl_only(harness, [(doc, pats), (chain, [zab])], os.path.join(work, "c09_probe.req"))
+    reps = [parse_reply(l) for l in out[2:5]] + [parse_reply(out[6] if len(out) > 6 else None)]
+    if rc != 0 or len(reps) != 4 or any(r is None for r in reps):
+        return None
+    return (int(reps[0]["m"][2] != "0"), int(reps[1]["m"][1] == "0"), int(reps[2]["m"][0] == "0"),
+            int(reps[3]["m"][5] != "0"))
+
+
 def make_request(cases, path):
     """cases: list of (doc, [patterns]); returns list of (case index, pattern index or None) per line"""
-    lines, owner = [], []
+    lines, owner = ["variant %d %d %d %d" % VARIANT], [(-1, None)]
     for ci, (doc, pats) in enumerate(cases):
         lines.append(g.doc_line(doc)); owner.append((ci, None))
         for pi, P in enumerate(pats):
@@ -166,7 +195,7 @@ def shrink_all(harness, work, items, want):
         lines, owner, out, rc, err = run_impl_only(harness, cases, os.path.join(work, "c09_shrink.req"))
         improved = set()
         for li, (ci, pi) in enumerate(owner):
-            if pi is None:
+            if pi is None or ci < 0:
                 continue
             k = who[ci]
             if k in improved:
@@ -208,6 +237,10 @@ def process(ctx, harness, model, cases, work, tag, ncorpus=0):
     for li, (ci, pi) in enumerate(owner):
         iv = il[li] if li < len(il) else None
         mv = ml[li] if li < len(ml) else None
+        if ci < 0:
+            if iv != mv:
+                disagree.append(dict(doc=cases[0][0], P=None, impl=iv, model=mv, what="variant line"))
+            continue
         doc, pats = cases[ci]
         if pi is None:
             docok[ci] = iv is not None and iv == mv and iv == "doc %d %s" % (g.count_nodes(doc), " ".join(g.table_of(doc)))
@@ -284,6 +317,18 @@ def report(ctx, harness, work, disagree, bad):
                 model=dd["model"], what=dd["what"]))
 
 
+def steps_ok(st):
+    """python mirror of StepsOK v (ChainProofs.lean) for the variant under test"""
+    fa, ag, rg, bt = VARIANT
+    simple = lambda s: (not s["attr"]) and (rg or s["test"][0] != "node")   # noqa: E731
+    if not all(simple(s) for _, s in st[:-1]):
+        return False
+    last = st[-1][1]
+    if last["attr"]:
+        return (ag or last["test"][0] in ("n", "any")) and (fa or all(k in ("a", "c", "na") for k, _ in last["preds"]))
+    return simple(last)
+
+
 def in_class(P):
     """python mirror of XalanModel.Props.C09.InClass (the class of match_iff_select_partial), for the evidence"""
     for p in P:
@@ -292,13 +337,12 @@ def in_class(P):
             if not p["abs"]:
                 return False
             continue
-        if any(s["attr"] or s["test"][0] == "node" for _, s in st[:-1]):
+        if VARIANT[3]:
+            # backtracking matcher (InClassB): every step lastOK, any order of separators, any lead
+            if all(steps_ok([(sep, s)]) for sep, s in st):
+                continue
             return False
-        last = st[-1][1]
-        if last["attr"]:
-            if last["test"][0] not in ("n", "any") or any(k not in ("a", "c", "na") for k, _ in last["preds"]):
-                return False
-        elif last["test"][0] == "node":
+        if not steps_ok(st):
             return False
         seps = [sep for sep, _ in st[1:]]
         desc_prefix = "d" not in "".join(seps).lstrip("d")
@@ -319,13 +363,7 @@ def in_sound_class(P):
         st = p["steps"]
         if not st or (p["abs"] and st[0][0] != "d"):
             return False
-        if any(s["attr"] or s["test"][0] == "node" for _, s in st[:-1]):
-            return False
-        last = st[-1][1]
-        if last["attr"]:
-            if last["test"][0] not in ("n", "any") or any(k not in ("a", "c", "na") for k, _ in last["preds"]):
-                return False
-        elif last["test"][0] == "node":
+        if not steps_ok(st):
             return False
     return True
 
@@ -361,7 +399,8 @@ def gen_fn_patterns(r, k):
 
 def use_site_stylesheet(pats, fnpats=()):
     """templates (one mode per pattern) and xsl:key declarations with match=P; for every node of the document one
-    output line: kind, then per pattern 't'<0/1> (did the template fire) and 'k'<0/1> (is the node in the key)"""
+    output line: kind, then per pattern three digits: did the template fire, is the node in the key, does
+    xsl:number level="single" count=P find a node to count (the node or an ancestor matches P)"""
     o = [XSL_HEAD]
     for j, P in enumerate(pats):
         o.append('<xsl:key name="k%d" match="%s" use="1"/>' % (j, xml_escape(g.render_pattern(P))))
@@ -371,6 +410,9 @@ def use_site_stylesheet(pats, fnpats=()):
     for j in range(len(pats)):
         body.append('<xsl:text> </xsl:text><xsl:apply-templates select="." mode="m%d"/>' % j)
         body.append('<xsl:value-of select="count(key(\'k%d\',1)[generate-id()=generate-id(current())])"/>' % j)
+        # xsl:number level="single" count="P": non-empty exactly when the node or an ancestor matches P
+        body.append('<xsl:variable name="c%d"><xsl:number level="single" count="%s"/></xsl:variable>'
+                    '<xsl:value-of select="number(string-length($c%d) &gt; 0)"/>' % (j, xml_escape(g.render_pattern(pats[j])), j))
     # id()/key() patterns: template fires (f<0/1>) vs the defining expression evaluated in the same run (d<0/1>)
     if fnpats:
         body.append('<xsl:variable name="n" select="."/>')
@@ -439,14 +481,22 @@ def use_sites(ctx, cases, replies, work, limit):
                                     doc=g.xml_of(doc), pattern=t, node=i,
                                     what="template match fired=%s, defining expression selects=%s" % (fj[0], fj[1])))
             for j, P in enumerate(pats):
-                if j >= len(f) or len(f[j]) != 2 or f[j][0] not in "01" or f[j][1] not in "01":
+                if j >= len(f) or len(f[j]) != 3 or any(ch not in "01" for ch in f[j]):
                     bad.append(dict(site="template", doc=g.xml_of(doc), pattern=g.render_pattern(P), node=i,
                                     what="neither the pattern's template nor the low-priority node()|@*|/ template "
                                          "fired (a built-in rule ran): field %r" % (f[j] if j < len(f) else None)))
                     continue
                 m = reps[j]["m"][i] != "0"
                 sp = reps[j]["s"][i] == "1"
-                for site, bit in (("template", f[j][0] == "1"), ("key", f[j][1] == "1")):
+                # xsl:number count: expectation over the ancestor-or-self chain
+                anc, x = [i], i
+                while x != 0:
+                    x = int(table[x].split(":")[-1])
+                    anc.append(x)
+                m_up = any(reps[j]["m"][a] != "0" for a in anc)
+                s_up = any(reps[j]["s"][a] == "1" for a in anc)
+                for site, bit, m, sp in (("template", f[j][0] == "1", m, sp), ("key", f[j][1] == "1", m, sp),
+                                         ("number-count", f[j][2] == "1", m_up, s_up)):
                     ctx.evaluations += 0
                     if bit == sp:
                         n_ok += 1
@@ -503,6 +553,15 @@ def run(ctx):
     os.makedirs(work, exist_ok=True)
     if model is None:
         return
+    global VARIANT
+    pv = probe_variant(harness, work)
+    ctx.oblige("variant probe: the three probe patterns compile and run on the real library", "correspondence",
+               pv is not None, "probe failed")
+    VARIANT = pv or (0, 0, 0, 0)
+    ctx.extra["variant"] = dict(findAttrFix=VARIANT[0], attrGuard=VARIANT[1], rootGuard=VARIANT[2], backtrack=VARIANT[3],
+                                meaning="which proposed repairs (proposed/C09-*.diff) the tree contains; selects the "
+                                        "variant of the Lean model; (0,0,0,0) = code as found")
+    common.log("  variant of the tree (findAttrFix, attrGuard, rootGuard, backtrack) = %s" % (VARIANT,))
     r = Rng(ctx.seed)
     cases = [(d, list(ps)) for d, ps in CORPUS]
     ncorpus = len(cases)
@@ -576,9 +635,11 @@ def replay(ctx, path):
         badl = [l for l in out.split("\n") if l and (len(l.split(" ")) < 2 or l.split(" ")[1][0] != l.split(" ")[1][1])]
         print("property at the use site:", "holds" if rc == 0 and not badl else "VIOLATED at %s" % badl)
         return 0 if rc == 0 and not badl else 1
+    global VARIANT
+    VARIANT = probe_variant(harness, work) or (0, 0, 0, 0)
     req = os.path.join(work, "c09_replay.req")
     with open(req, "w") as f:
-        f.write("\n".join(inp["request"]) + "\n")
+        f.write("\n".join(["variant %d %d %d %d" % VARIANT] + inp["request"]) + "\n")
     il, ml, irc, mrc, ierr, merr = common.run_pair([harness], [model], req)
     print("pattern:", inp["pattern"], " document:", inp["doc"])
     print("implementation:", il[-1] if il else ierr)
